@@ -168,3 +168,68 @@ pub fn pos_allow(args: &[String]) -> String {
     }
     format!("{{\"found\": false, \"tried\": {}}}", tried)
 }
+
+/// C07 bounded stand-in on the real public API: position and length arithmetic (wrapping position, saturating
+/// length, set / unset, finish variants), single-threaded.
+pub fn pos_arith(_args: &[String]) -> String {
+    use indicatif::ProgressBar;
+    std::panic::set_hook(Box::new(|_| {}));
+    let mut tried = 0u64;
+    let vals = [0u64, 1, 7, u64::MAX - 1, u64::MAX];
+    for &p0 in &vals {
+        for &d in &vals {
+            let pb = ProgressBar::hidden();
+            pb.set_position(p0);
+            pb.inc(d);
+            tried += 1;
+            if pb.position() != p0.wrapping_add(d) {
+                return format!("{{\"found\": true, \"clause\": \"C07 inc wraps modulo 2^64\", \"input\": {{\"position\": \"{}\", \"delta\": \"{}\", \"got\": \"{}\"}}, \"rerun\": \"replay pos_arith\"}}", p0, d, pb.position());
+            }
+            let pb = ProgressBar::hidden();
+            pb.set_position(p0);
+            pb.dec(d);
+            tried += 1;
+            if pb.position() != p0.wrapping_sub(d) {
+                return format!("{{\"found\": true, \"clause\": \"C07 dec wraps modulo 2^64 without panicking\", \"input\": {{\"position\": \"{}\", \"delta\": \"{}\", \"got\": \"{}\"}}, \"rerun\": \"replay pos_arith\"}}", p0, d, pb.position());
+            }
+            for len0 in [None, Some(p0)] {
+                let pb = ProgressBar::hidden();
+                if let Some(l) = len0 { pb.set_length(l); }
+                pb.inc_length(d);
+                let want = len0.map(|l| l.saturating_add(d));
+                tried += 1;
+                if pb.length() != want {
+                    return format!("{{\"found\": true, \"clause\": \"C07 inc_length saturates, an unknown length stays unknown\", \"input\": {{\"length\": {:?}, \"delta\": \"{}\", \"got\": {:?}}}, \"rerun\": \"replay pos_arith\"}}", len0, d, pb.length());
+                }
+                let pb = ProgressBar::hidden();
+                if let Some(l) = len0 { pb.set_length(l); }
+                pb.dec_length(d);
+                let want = len0.map(|l| l.saturating_sub(d));
+                tried += 1;
+                if pb.length() != want {
+                    return format!("{{\"found\": true, \"clause\": \"C07 dec_length saturates at zero\", \"input\": {{\"length\": {:?}, \"delta\": \"{}\", \"got\": {:?}}}, \"rerun\": \"replay pos_arith\"}}", len0, d, pb.length());
+                }
+            }
+        }
+    }
+    // a history: inc; dec below zero; inc back
+    let pb = ProgressBar::hidden();
+    pb.inc(5); pb.dec(7); pb.inc(7);
+    tried += 1;
+    if pb.position() != 5 {
+        return format!("{{\"found\": true, \"clause\": \"C07 position arithmetic is modular: inc(5); dec(7); inc(7) == 5\", \"input\": {{\"got\": \"{}\"}}, \"rerun\": \"replay pos_arith\"}}", pb.position());
+    }
+    // finish variants: position == length for finish*, unchanged for abandon*
+    for v in 0..5 {
+        let pb = ProgressBar::hidden();
+        pb.set_length(10);
+        pb.set_position(3);
+        match v { 0 => pb.finish(), 1 => pb.finish_with_message("m"), 2 => pb.finish_and_clear(), 3 => pb.abandon(), _ => pb.abandon_with_message("m") }
+        let want = if v <= 2 { 10 } else { 3 };
+        tried += 1;
+        if pb.position() != want || pb.length() != Some(10) || !pb.is_finished() {
+            return format!("{{\"found\": true, \"clause\": \"C07/C04 finish variants move the position to the length, abandon variants leave it\", \"input\": {{\"variant\": {}, \"position\": \"{}\"}}, \"rerun\": \"replay pos_arith\"}}", v, pb.position());
+        }
+    }
+    format!("{{\"found\": false, \"tried\": {}}}", tried)
+}
